@@ -183,6 +183,10 @@ func c06SpecCheck(c *core.Ctx, cases []specCase) []core.Outcome {
 		return outs
 	}
 	for k, i := range idx {
+		if res[k] == core.DriverTimeout {
+			outs[i].Buckets = append(outs[i].Buckets, "model-timeout")
+			continue
+		}
 		if got := c06LastOnly(res[k]); got != stdAns[i] {
 			outs[i].Fail = &core.Failure{Kind: "correspondence-break", Key: "C06:spec-vs-stdlib:" + classify(cases[i].Ast, cases[i].Opts),
 				Summary:  fmt.Sprintf("the specification (Spec.find, last capture per group) differs from Go's regexp on the common syntax: pattern %q options %s input %q", cases[i].Pattern, cases[i].Opts, string(cases[i].Text)),
